@@ -31,7 +31,7 @@ OCT_SIZES = [16, 20, 24, 32, 48, 64]
 KEY_KINDS = ["oct%d" % n for n in OCT_SIZES] + ["rsa1024", "rsa2047", "rsa2041", "rsa", "P-256", "P-384", "P-521", "secp256k1", "Ed25519", "Ed448", "X25519", "X448"]
 QUICK_KINDS = ["oct16", "oct24", "oct32", "oct64", "rsa1024", "rsa2047", "rsa", "P-256", "P-384", "P-521", "secp256k1", "Ed25519", "Ed448", "X25519", "X448"]
 ALL_OPS = ["sign", "verify", "encrypt", "decrypt", "wrapKey", "unwrapKey", "deriveKey", "deriveBits"]
-DECL = [("none", {}), ("use-sig", {"use": "sig"}), ("use-enc", {"use": "enc"})] + [(f"ops-{o}", {"key_ops": [o]}) for o in ALL_OPS] + \
+DECL = [("none", {}), ("use-sig", {"use": "sig"}), ("use-enc", {"use": "enc"}), ("ops-empty-list", {"key_ops": []})] + [(f"ops-{o}", {"key_ops": [o]}) for o in ALL_OPS] + \
        [("ops-sign+verify", {"key_ops": ["sign", "verify"]}), ("ops-wrap+unwrap", {"key_ops": ["wrapKey", "unwrapKey"]}),
         ("ops-encrypt+decrypt", {"key_ops": ["encrypt", "decrypt"]}), ("ops-derive", {"key_ops": ["deriveKey", "deriveBits"]}),
         ("use-sig+ops-sign+verify", {"use": "sig", "key_ops": ["sign", "verify"]}), ("use-sig+ops-verify", {"use": "sig", "key_ops": ["verify"]}),
@@ -602,6 +602,53 @@ def key_histories(tier):
     return total
 
 
+# ------------------------------------------------------------------ E3: the first uses of one key object, at the same time
+T_KEYS = [("oct16", {"use": "enc"}), ("oct16", {"key_ops": ["verify"]}), ("oct16", {"use": "sig"}), ("rsa", {"use": "sig"}), ("rsa", {"key_ops": ["decrypt"]}),
+          ("P-256", {"use": "enc"}), ("P-256", {"key_ops": ["verify"]})]
+
+
+def h_threads(ctx):
+    """A key whose JWK view is built lazily (native import, restrictions declared through parameters) is used for the first time by
+    two calls at once: whatever the schedule, a success needs a suitable key."""
+    from .. import conc
+    from joserfc import jws, jwe
+    kind, decl = ctx.choose("key", T_KEYS)
+    jwk = kind_jwk(kind)
+    kty = jwk["kty"]
+    ops = OPS_FOR[kty][:6] if config.thorough() else OPS_FOR[kty][:4]
+
+    def op(spec):
+        alg, enc, what = spec
+
+        def run(sh):
+            key = sh["key"]
+            if what == "sign":
+                r = call(jws.serialize_compact, {"alg": alg}, b"payload", key, algorithms=[alg])
+            elif what == "verify":
+                seg = b64.enc(rjws.hdr_json({"alg": alg}).encode())
+                sig = careless_sign(alg, jwk, rjws.signing_input(seg, b"payload", True)) or b"\0" * 32
+                r = call(jws.deserialize_compact, seg + "." + b64.enc(b"payload") + "." + b64.enc(sig), key, algorithms=[alg])
+            elif what == "encrypt":
+                r = call(jwe.encrypt_compact, {"alg": alg, "enc": enc}, b"plaintext", key, algorithms=[alg, enc])
+            else:
+                tok = careless_jwe(alg, enc, jwk, None, b"plaintext") or c16.jwe_wire(c16.jwe_seed(alg, scen.jwe_key_kinds(alg, enc)[0], enc, "compact"), "compact")
+                r = call(jwe.decrypt_compact, tok, key, algorithms=[alg, enc])
+            return (spec, r)
+        return (f"{what} {alg}", run)
+
+    def judge(name, o, sh):
+        (alg, enc, what), r = o
+        why = suitable(alg, enc or "A128GCM", jwk, decl, what, True)
+        if r.ok and why:
+            return (f"an operation succeeds with an unsuitable key while the key is used for the first time by two calls [{'declared key_ops lack the operation' if why[0].startswith('declared key_ops') else why[0]}]",
+                    f"{kind} key declaring {decl}: {name}: {why}")
+        return None     # one-directional, like the rest of C06: a refusal is never judged
+
+    def shared():
+        return {"key": A.jkey(dict(jwk), "pem" if kty != "oct" else "bytes", True, copy.deepcopy(decl))}
+    return conc.pairs(ctx, [op(s_) for s_ in ops], shared, judge, thorough=config.thorough(), warm_check=False)
+
+
 _pc = Part("mac-confusion", h_confusion, split_depth=2)
 _pc.single_bucket_ok = True
 _po = Part("oct-from-key-text", h_oct_text, split_depth=2)
@@ -611,5 +658,6 @@ PARTS = [
     Part("jwe-keys", h_jwe, split_depth=3, budget={"quick": 150, "thorough": 2400}),
     Part("ecdh-cross-curve", h_ecdh_cross, split_depth=2),
     Part("one-key-over-time", custom=key_histories, engine="E2"),
+    Part("thread-schedules", h_threads, bound={"quick": 1, "thorough": 2}, split_depth=2, budget={"quick": 200, "thorough": 3000}, engine="E3"),
     _pc, _po,
 ]
